@@ -65,6 +65,11 @@ CHECKS = {
          "The models show that the outcome is a function of the input only, for every chunk size, worker count, completion order, tie order and merge-list order within the bounds. For random inputs the real brew / assign_confidence / read_pin are run under a reference configuration and under every prediction / confidence chunk size 1..n+1, rotating training-read / merge-sort / column- and row-scan chunk sizes, workers 1..4 with every pool-feasible completion order of the fold fits (generated by TLC, enforced through the recording Model subclass), text vs Parquet with row groups 1..n+5; TLC accepts a group iff every run fails exactly when the reference does and all outcomes are equal (scores exactly as rationals, real-learner scores within 2e-6, result files as row sets).",
          "Trusted: TLC, schedule enforcement by condition variable (infeasible orders time out harmlessly), tie-free-in-group confidence inputs, pyarrow full-batch behaviour.",
          "DESIGN.md §3 C05"),
+ "C07": ("model_checking",
+         "TLC model checking of BrewDecide.tla (feature count / prediction count in the file's label encoding / decision vs SafetyNet) + TLC trace validation of brew() return values (DecideTrace.tla) and of assign_confidence(descs=[False]) result files (ConfTrace.tla on direction-normalised ranks)",
+         "The decision logic is model-checked for every small (labels, feature ranks, learned ranks, trained?, encoding, direction, threshold). The real brew() is run on random datasets x estimators that learn / cannot learn / anti-learn x label encodings x best-feature direction x format x override; TLC recomputes from the returned scores and direction how many genuine targets are accepted (C01 formula per collection) and accepts iff that is at least the best feature's count or the returned scores are exactly that feature's values with its direction. The direction part runs every canonical table of ConfGen.tla through assign_confidence(descs=[False]).",
+         "Trusted: TLC; feat_total is what the returned fold models report. An explicit calibration RuntimeError is not a silent degradation. Known finding F-07b (assign_confidence ignores desc=False).",
+         "DESIGN.md §3 C07"),
 }
 PENDING = {}   # id -> reason (not_applicable)
 
